@@ -221,6 +221,65 @@ Proof.
   exists e. split; [exact Ge|]. split; [|exact Se]. fold c in Re. rewrite Re. exact (occ_groups_pos c a HD vals).
 Qed.
 
+(** ** a positional with a value RANGE ([num_args(1..)], [num_args(2)], ...): a run of adjacent values is ONE occurrence *)
+Definition run_positional (c : cmd) (k : N) (a : arg) : Prop :=
+  pos_simple c = true /\ get_pos c k = Some a /\ a_takes_value a = true /\
+  a_multiple_values a = true /\ a_term a = None /\ a_tva a = false.
+
+Lemma wscan_run c k a : run_positional c k a ->
+  forall vals, value_tokens c vals -> forall raw,
+  wscan c (mkW (PSPos (a_id a)) k false (Some (IIndex, a, raw, None))) vals =
+  Some [mkOcc (Some IIndex) SCmdLine a (raw ++ vals) None].
+Proof.
+  intros [PS [GP [TV [MV [TM TVA]]]]]. induction vals as [|v vs IH]; intros HV raw; cbn [wscan w_pend flush pend_occ].
+  - rewrite app_nil_r. reflexivity.
+  - inversion HV as [|? ? [PV NS] HV']; subst.
+    destruct (plain_value_lex v PV) as [ES [TL TS]].
+    assert (IM : a_is_multiple a = true) by (unfold a_is_multiple; rewrite MV; reflexivity).
+    assert (WS : wstep c (mkW (PSPos (a_id a)) k false (Some (IIndex, a, raw, None))) v =
+                 Some ([], mkW (PSPos (a_id a)) k false (Some (IIndex, a, raw ++ [v], None)))).
+    { unfold wstep. cbn [w_trailing w_pst w_pend w_pos]. unfold sub_free. rewrite NS, orb_true_r. cbn [negb].
+      rewrite ES, TL, TS. cbn [is_some orb].
+      unfold wpos_step. rewrite PS. cbn [negb w_pos w_trailing w_pend]. rewrite GP, TV. cbn [negb]. rewrite TVA, MV, beq_refl.
+      unfold check_terminator. rewrite TM, IM. reflexivity. }
+    rewrite WS. rewrite (IH HV' (raw ++ [v])). rewrite <- app_assoc. reflexivity.
+Qed.
+
+Theorem woccurrences_run c a v vals : run_positional c 1 a -> value_tokens c (v :: vals) ->
+  woccurrences c (v :: vals) = Some [mkOcc (Some IIndex) SCmdLine a (v :: vals) None].
+Proof.
+  intros H HV. pose proof H as [PS [GP [TV [MV [TM TVA]]]]]. unfold woccurrences, w_init. cbn [wscan].
+  inversion HV as [|? ? [PV NS] HV']; subst.
+  destruct (plain_value_lex v PV) as [ES [TL TS]].
+  assert (IM : a_is_multiple a = true) by (unfold a_is_multiple; rewrite MV; reflexivity).
+  assert (WS : wstep c (mkW PSValuesDone 1 false None) v = Some ([], mkW (PSPos (a_id a)) 1 false (Some (IIndex, a, [v], None)))).
+  { unfold wstep. cbn [w_trailing w_pst w_pend w_pos]. unfold sub_free. rewrite NS, orb_true_r. cbn [negb].
+    rewrite ES, TL, TS. cbn [is_some orb].
+    unfold wpos_step. rewrite PS. cbn [negb w_pos w_trailing w_pend]. rewrite GP, TV. cbn [negb]. rewrite TVA.
+    unfold check_terminator. rewrite TM, IM. reflexivity. }
+  rewrite WS. rewrite (wscan_run c 1 a H vals HV' [v]). reflexivity.
+Qed.
+
+(** the line consists of values of the positional only: ONE group holding all of them, in order *)
+Theorem wide_top_positional_run c0 bin v vals m a :
+  let c := build_self (with_bin c0 bin) in
+  is_set s_no_binary_name c0 = false -> is_set s_ignore_errors c = false -> no_hyphen_args c = true ->
+  run_positional c 1 a -> value_tokens c (v :: vals) ->
+  a_get_action a = AAppend -> a_delim a = None -> (forall b, In b (c_args c) -> overridden c b (a_id a) = false) ->
+  parse_top c0 (bin :: v :: vals) = OOk m ->
+  exists e, fm_get (a_id a) (ms_args m) = Some e /\ m_raw e = [v :: vals] /\ m_source e = Some SCmdLine.
+Proof.
+  intros c NB IE NH PV HV EA HD OF HP.
+  assert (TC : wide_class c0 bin (v :: vals) [mkOcc (Some IIndex) SCmdLine a (v :: vals) None]).
+  { split; [exact NB|]. split; [exact IE|]. split; [exact NH|]. exact (woccurrences_run c a v vals PV HV). }
+  assert (Hin : In a (c_args c)) by (destruct PV as [_ [GP _]]; exact (get_pos_in c 1 a GP)).
+  destruct (wide_top_append c0 bin _ _ m a TC HP Hin EA OF) as [e [Ge [Re Se]]].
+  { cbn [count_occ o_arg]. rewrite beq_refl. cbn. lia. }
+  exists e. split; [exact Ge|]. split; [|exact Se]. fold c in Re. rewrite Re.
+  cbn [occ_groups flat_map o_arg]. rewrite beq_refl. cbn [app]. unfold o_vals. cbn [o_arg o_raw o_ti].
+  rewrite (occ_values_nodelim c a (v :: vals) None HD) by discriminate. reflexivity.
+Qed.
+
 (** ** an option given WITHOUT a value, n times: n occurrences without a raw value; for an [Append] option without
     [default_missing_value] these are n EMPTY groups, none dropped or merged *)
 Definition bare_token (c : cmd) (tok : bytes) (idn : ident) (a : arg) : Prop :=
@@ -347,6 +406,27 @@ Module WideTopExamples.
                 ltac:(vm_compute; lia)) as [e [Ge [Re Se]]].
     unfold entry. assert (E : a_id (argB [100]) = [100]) by vmr. rewrite E in Ge. rewrite Ge. cbn [option_map].
     rewrite Re, Se. vmr.
+  Qed.
+  (** a multi-valued positional: the run is one occurrence *)
+  Definition c2 : cmd := (cmd_new [112]) <| c_args := [
+     (mk [118]) <| a_short := Some 118 |> <| a_action := Some ACount |>;
+     (mk [82]) <| a_action := Some AAppend |> <| a_num := Some {| vmin := 1; vmax := usize_max |} |> ] |>.
+  Definition cb2 : cmd := build_self (with_bin c2 bin).
+  Definition argR2 : arg := match find_arg cb2 [82] with Some a => a | None => arg_new [] end.
+  Definition result2 (toks : list bytes) : matches :=
+    match parse_top c2 (bin :: toks) with OOk m => m | _ => Matches [] None end.
+  Example run_hyp : run_positional cb2 1 argR2 /\ value_tokens cb2 lineP.
+  Proof.
+    split; [unfold run_positional; split; [|split; [|split; [|split; [|split]]]]; vmr|].
+    unfold value_tokens, lineP. constructor; [split; vmr|]. constructor; [split; vmr|]. constructor; [split; vmr|]. constructor.
+  Qed.
+  Example run_one_group : option_map m_raw (fm_get [82] (ms_args (result2 lineP))) = Some [[[97]; [98]; [99]]].
+  Proof.
+    destruct run_hyp as [H1 H2].
+    assert (OF : forall b, In b (c_args cb2) -> overridden cb2 b (a_id argR2) = false) by (apply no_overrides_dec; vmr).
+    destruct (wide_top_positional_run c2 bin [97] [[98]; [99]] (result2 lineP) argR2 ltac:(vmr) ltac:(vmr) ltac:(vmr)
+                H1 H2 ltac:(vmr) ltac:(vmr) OF ltac:(vmr)) as [e [Ge [Re Se]]].
+    assert (E : a_id argR2 = [82]) by vmr. rewrite E in Ge. rewrite Ge. cbn [option_map]. rewrite Re. reflexivity.
   Qed.
   (** the per-value closed form and the bare-option closed form *)
   Example per_value_hyp : per_value_positional cb 1 (argB [82]) /\ value_tokens cb lineP.
